@@ -379,3 +379,48 @@ _run_prev3 = run
 def run(unit, em):
     _run_prev3(unit, em)
     run_chain(unit, em)
+
+
+# ---- clause `sharedtail`: appending to a shared remove list keeps what the sharers already queued
+def run_sharedtail(unit, em):
+    """`SharedList::append(list, v, alloc)`: when the list is shared (`refCount_ > 1`, i.e. a split handed a copy of the pending
+    remove list to the new block) the appender gets a private head node *linked in front of* the shared chain
+    (`tmp->next_ = list; list = tmp;`).  Obligation: on the shared branch some node's `next_` is assigned the old list, and the
+    old list's reference count is not given back (the new head now holds that reference).  Starting a fresh list instead drops
+    the states queued before the split: they are never removed from the relation (seed C05-10)."""
+    from .prov import origins
+    for fn in unit.functions:
+        if fn.body is None or not fn.q.replace('VATA::', '').split('<')[0].endswith('SharedList::append') or not fn.params:
+            continue
+        lst = fn.params[0]['d']
+        for n in fn.walk(lambdas=False):
+            if n['k'] != 'IfStmt':
+                continue
+            c = strip(n.get('c'))
+            if c is None or c['k'] != 'BinaryOperator' or c.get('op') not in ('>', '>=', '!='):
+                continue
+            if not any(x['k'] == 'MemberExpr' and x.get('n') == 'refCount_' for x in walk(c)):
+                continue
+            th = n.get('th')
+            linked = dropped = False
+            for a in walk(th):
+                if a['k'] == 'BinaryOperator' and a.get('op') == '=':
+                    l, r = strip(a['ch'][0]), strip(a['ch'][1])
+                    if l is not None and l['k'] == 'MemberExpr' and l.get('n') == 'next_' and r is not None and r['k'] == 'DeclRefExpr' and r.get('d') == lst:
+                        linked = True
+                if a['k'] == 'UnaryOperator' and a.get('op') == '--' and any(x['k'] == 'MemberExpr' and x.get('n') == 'refCount_' for x in walk(a)):
+                    dropped = True
+            txt = 'append to a shared list: ' + unit.text(c, 40)
+            if linked and not dropped:
+                em.ok(n, txt, 'the private head node is linked in front of the shared chain', 'sharedtail')
+            else:
+                em.violation(n, txt, 'when the list is shared the appender must get a private head whose `next_` is the shared chain (and keep the reference to it); here %s: the elements queued '
+                             'before the list was shared are lost to this owner' % ('no node is linked to the old list' if not linked else 'the reference to the old list is given back'), 'sharedtail')
+
+
+_run_prev4 = run
+
+
+def run(unit, em):
+    _run_prev4(unit, em)
+    run_sharedtail(unit, em)
